@@ -38,6 +38,9 @@ func LeafSpecs() []*Spec {
 			}
 		}
 	}
+	// units without multipliers
+	out = append(out, &Spec{Kind: KInt, Units: "chars"}, &Spec{Kind: KInt, Min: I64(0), Max: I64(5), Units: "chars"}, &Spec{Kind: KFloat, Units: "pct"},
+		&Spec{Kind: KFloat, FMin: F64(-1.5), FMax: F64(5.5), Units: "pct"})
 	for _, p := range []string{"", "^a+$"} {
 		for _, mn := range optsI(0, 2) {
 			for _, mx := range optsI(1, 3) {
